@@ -8,9 +8,8 @@ from vncdotool import loggingproxy as lp
 from twisted.internet import reactor
 
 CLOCK = [1000.0]
-import types, time as _time
-# loggingproxy does `import time` and calls time.time(): give that module its own `time` namespace (virtual clock)
-lp.time = types.SimpleNamespace(time=lambda: CLOCK[0], strftime=lambda fmt, *a: _time.strftime(fmt, *(a or (_time.gmtime(CLOCK[0]),))))
+# whatever way loggingproxy imports the clock: callers inside that module see the virtual clock (core.HOOKS)
+HOOKS["vclock"] = lambda: CLOCK[0]
 
 
 class Proxy:
